@@ -21,6 +21,7 @@ def run(ck, an, tier):
     ledger.marking_equations(ck, an, {"equations", "margin", "guards"})
     ledger.transact_equations(ck, an, {"margin", "equations", "order"})
     ledger.valuation_formulas(ck, an, {"nlv", "weights"})
+    ledger.ledger_containers(ck, an, "S7")
     # holdings_weights uses one NLV for all holdings and the same valuation as the report
     fa = an.fa("Broker.holdings_weights")
     nl = fa.calls_to("Broker.net_liquidation_value")
